@@ -24,6 +24,10 @@ ASSUME = [
     "calls carry a timeout; at the deadline 'no answer' surfaces as Timeout or as SenderError depending on which timer fires first "
     "(the caller's or the port converter's): both are read as 'no reply'",
     "bounds: <= 3 callers, <= 6 requests, <= 2 abandoned calls, <= 3 probes per run",
+    "free-running family: real threads, real clock; a log line is trusted only where its position is safe (intent before the "
+    "call, result after it; the begin line of a call and its send happen under one lock); a probe's exit is not logged, the "
+    "specification takes it silently after the logged stop request; runs whose paths do not answer a synchronising call within "
+    "10 s are dropped and counted",
 ]
 
 VAC = (("MC_RemoteActor_vac_reuse.cfg", "NoCrossWire"), ("MC_RemoteActor_vac_fifo.cfg", "NoCrossWire"))
@@ -79,7 +83,35 @@ def run(pid, tier, seed):
         sig = "remoteactor first-unexplained=%s" % lab
         v.violation(sig, {"family": "remoteactor", "meta": meta, "trace": [json.loads(x) for x in viol["run"]],
                           "first_unexplained": viol.get("lenient_event_index"), "event": ev})
+    # V2: the same two nodes on a multi-thread runtime, scheduler off (real parallelism inside synchronous code); only
+    # observations whose log position is safe are kept and judged (lenient validation)
+    trace2 = os.path.join(w, "batch_free.ndjson")
+    summ2 = vlib.harness(["remoteactor-free", "--out", trace2, "--tier", tier, "--seed", seed])
+    if summ2.get("bad_runs", 0) * 4 > max(1, summ2.get("runs", 0) + summ2.get("bad_runs", 0)):
+        raise vlib.ToolError("free-running family: %d of %d runs could not be judged (nodes not ready / paths not quiescent)" % (
+            summ2["bad_runs"], summ2["runs"] + summ2["bad_runs"]))
+    vb2 = vlib.validate_batch("Trace_RemoteActor", "Trace_RemoteActor.cfg", trace2, "remoteactor_free_" + pid, start_lenient=True)
+    log("[V] remoteactor-free: %d runs, %d events, accepted on observations %d, rejected %d" % (
+        vb2["runs"], vb2["events"], vb2["lenient_accepted"], len(vb2["violations"])))
+    for viol in vb2["violations"]:
+        meta = json.loads(viol["run"][0]).get("meta", {})
+        ev = viol.get("lenient_event") or "{}"
+        try:
+            j = json.loads(ev)
+            lab = "%s(%s)" % (j.get("a", "?"), ",".join(str(j.get(k)) for k in ("dir", "x", "s", "q", "r") if j.get(k) not in ("", 0, None)))
+        except Exception:
+            lab = "?"
+        v.violation("remoteactor-free first-unexplained=%s" % lab,
+                    {"family": "remoteactor-free", "meta": meta, "trace": [json.loads(x) for x in viol["run"]],
+                     "first_unexplained": viol.get("lenient_event_index"), "event": ev})
     cov = {
+        "free_running": {"runs": vb2["runs"], "events": vb2["events"], "accepted_on_observations": vb2["lenient_accepted"],
+                         "rejected": len(vb2["violations"]), "not_judged": summ2.get("bad_runs", 0),
+                         "rule": "one evaluation = one run of the two real node servers on a 4-thread tokio runtime with the scheduler "
+                                 "off: three probes, background casts through every proxy, two callers (three calls each), the "
+                                 "controller stops 1-3 probes; kept: call begin (logged under the lock that also covers the send) / "
+                                 "return, receive / reply at the probe, stop requests, final status of probes and proxies after every "
+                                 "path has answered a synchronising call"},
         "states": sum(m["states"] for m in mcs),
         "transitions": sum(m["transitions"] for m in mcs),
         "traces_validated_against_impl": vb["strict_accepted"] + len(vb["divergences"]),
